@@ -22,9 +22,9 @@ func (a *Analysis) CheckC12(rep *Report) {
 	nreg := 0
 	seenT := map[string]bool{}
 	for _, t := range a.U.Tables {
-		seenT[t.Name] = true
+		seenT[a.pinnedTable(g, t.Name)] = true
 		pos := a.P.Pos(t.Global.Pos())
-		gold, ok := g.Tables[t.Name]
+		gold, ok := g.Tables[a.pinnedTable(g, t.Name)]
 		if !rep.Ob("T1-table-in-schema", t.Name, ok, pos, "discriminator table is not in the pinned schema rendering") {
 			continue
 		}
@@ -122,7 +122,7 @@ func (a *Analysis) CheckC12(rep *Report) {
 			if i < len(gold) {
 				wantTable, wantKey = gold[i].Table, gold[i].Key
 			}
-			rep.Ob("T3-decode-uses-pinned-table", key, fd.Table == wantTable && fd.Key == wantKey && wantTable != "", dpos,
+			rep.Ob("T3-decode-uses-pinned-table", key, a.pinnedTable(g, fd.Table) == wantTable && fd.Key == wantKey && wantTable != "", dpos,
 				fmt.Sprintf("Decode builds the dynamic part from %s by %s; the pinned schema says %s by %s", fd.Table, fd.Key, wantTable, wantKey))
 			// key decoded before the lookup: the key is the value of an earlier field
 			keyIdx := -1
@@ -232,4 +232,65 @@ func defensiveNilArm(p *Path) bool {
 		}
 	}
 	return false
+}
+
+// pinnedTable: the table of the pinned schema that a table of the tree stands for. A table is the pinned one of the
+// same name; a table whose name the pinned rendering does not know stands for the pinned table of the same package
+// that no table of the tree is named after and that holds exactly the same assignments (the variable's name is not
+// behaviour – which discriminators build which types is). Anything else has no pinned counterpart.
+func (a *Analysis) pinnedTable(g *Golden, name string) string {
+	a.pinnedOnce.Do(func() {
+		a.pinned = map[string]string{}
+		claimed := map[string]bool{}
+		for _, t := range a.U.Tables {
+			if _, ok := g.Tables[t.Name]; ok {
+				a.pinned[t.Name] = t.Name
+				claimed[t.Name] = true
+			}
+		}
+		var free []string
+		for n := range g.Tables {
+			if !claimed[n] {
+				free = append(free, n)
+			}
+		}
+		sort.Strings(free)
+		pkgOf := func(n string) string { return n[:strings.IndexByte(n+".", '.')] }
+		for _, t := range a.U.Tables {
+			if a.pinned[t.Name] != "" {
+				continue
+			}
+			got := map[string]string{}
+			dup := false
+			for _, r := range t.Regs {
+				if _, d := got[r.Key]; d {
+					dup = true
+				}
+				got[r.Key] = r.Type
+			}
+			if dup {
+				continue
+			}
+			for _, n := range free {
+				if claimed[n] || pkgOf(n) != pkgOf(t.Name) || len(g.Tables[n]) != len(got) {
+					continue
+				}
+				same := true
+				for k, ty := range g.Tables[n] {
+					if got[k] != ty {
+						same = false
+					}
+				}
+				if same {
+					a.pinned[t.Name] = n
+					claimed[n] = true
+					break
+				}
+			}
+		}
+	})
+	if n, ok := a.pinned[name]; ok {
+		return n
+	}
+	return name
 }
